@@ -7,6 +7,7 @@
 import Rngs.Model.Xoshiro
 import Rngs.Model.XorShift
 import Rngs.Model.Jitter
+import Rngs.Model.Hc128
 import Rngs.Lib.XorLinear
 namespace Rngs
 
